@@ -189,26 +189,51 @@ def odds : List α → List α
 
 def countSec (c : Nat) (l : List (Nat × Nat × Rat)) : Nat := (l.filter fun t => t.1 = c).length
 
+abbrev Ent := Nat × Nat × Rat
+
+/-- `np.bincount(secondary_f)` has `max + 1` bins -/
+def maxSecOf (l : List Ent) : Nat := l.foldl (fun m t => if m < t.1 then t.1 else m) 0
+
+/-- the optional `face_duplicate_ind` reordering: faces listed as duplicates go last (two sides only) -/
+def dupOrder (nsides : Nat) (entries : List Ent) : Option (List Nat) → List Ent
+  | some d => if nsides = 2 then
+      entries.filter (fun t => !(d.contains t.2.1)) ++ entries.filter (fun t => d.contains t.2.1)
+    else entries
+  | none => entries
+
+/-- two sides: every lower-dimensional cell must be listed exactly twice -/
+def countsOk (nsides : Nat) (e1 : List Ent) : Bool :=
+  !(nsides = 2) || (List.range (maxSecOf e1 + 1)).all fun c => countSec c e1 = 2
+
+/-- mortar cell order: all cells of side 1, then all cells of side 2 -/
+def sideOrder (nsides : Nat) (sorted : List Ent) : List Ent :=
+  if nsides = 2 then evens sorted ++ odds sorted else sorted
+
+def pTable (numCells nPrim : Nat) (ordered : List Ent) : Mat :=
+  table numCells nPrim fun i j => let t := ordered.getD i (0, 0, 0); if t.2.1 = j then t.2.2 else 0
+
+def sTable (numCells nSec : Nat) (ordered : List Ent) : Mat :=
+  table numCells nSec fun i j => let t := ordered.getD i (0, 0, 0); if t.1 = j then t.2.2 else 0
+
 /-- `_init_projections`: `entries` is the coo listing `(secondary_f, primary_f, data)` of
     `primary_secondary` (shape `nSec × nPrim`); `dup` is `face_duplicate_ind`.
     `none` models the `ValueError`s. Result: `(primary_to_mortar, secondary_to_mortar)`. -/
-def initBase (nsides numCells nPrim nSec : Nat) (entries : List (Nat × Nat × Rat))
+def initBase (nsides numCells nPrim nSec : Nat) (entries : List Ent)
     (dup : Option (List Nat)) : Option (Mat × Mat) :=
-  let e1 := match dup with
-    | some d => if nsides = 2 then
-        entries.filter (fun t => !(d.contains t.2.1)) ++ entries.filter (fun t => d.contains t.2.1)
-      else entries
-    | none => entries
-  let sorted := sortBySec e1
-  let maxSec := e1.foldl (fun m t => if m < t.1 then t.1 else m) 0
-  if nsides = 2 && !((List.range (maxSec + 1)).all fun c => countSec c e1 = 2) then none else
-  let ordered := if nsides = 2 then evens sorted ++ odds sorted else sorted
+  let e1 := dupOrder nsides entries dup
+  if !countsOk nsides e1 then none else
+  let ordered := sideOrder nsides (sortBySec e1)
   if ordered.length ≠ numCells then none else
-  let P := table numCells nPrim fun i j =>
-    let t := ordered.getD i (0, 0, 0); if t.2.1 = j then t.2.2 else 0
-  let S := table numCells nSec fun i j =>
-    let t := ordered.getD i (0, 0, 0); if t.1 = j then t.2.2 else 0
-  some (P, S)
+  some (pTable numCells nPrim ordered, sTable numCells nSec ordered)
+
+/-- well-formed `primary_secondary` map: unit data, every primary face at most once and in range,
+    secondary indices in range and every secondary cell coupled -/
+structure WellFormedMap (nPrim nSec : Nat) (entries : List Ent) : Prop where
+  data : ∀ t ∈ entries, t.2.2 = 1
+  prim : ∀ t ∈ entries, t.2.1 < nPrim
+  nodup : (entries.map (·.2.1)).Nodup
+  sec : ∀ t ∈ entries, t.1 < nSec
+  all : ∀ c, c < nSec → ∃ t ∈ entries, t.1 = c
 
 /-! ### `match_grids_along_1d_mortar` -/
 
@@ -390,5 +415,126 @@ inductive Reachable : Ctx → Side → Prop where
   | init (c : Ctx) (s : Side) : SideInv c.cov c.nP c.nS s → Reachable c s
   | step (c c' : Ctx) (s : Side) (u : SideUpd) : Reachable c s → ValidUpd c s c' u →
       Reachable c' (s.apply u)
+
+/-! ### specification: the whole interface, all eight projections -/
+
+/-- what the property claims of ONE mortar side, for all eight projections: the side's blocks of the
+    four grid-to-mortar matrices (`SideInv`) and, for the four mortar-to-grid matrices, the side's
+    column blocks, which are the transposes of the former -/
+structure EightOK (cov : Nat → Prop) (nP nS : Nat) (s : Side) : Prop where
+  /-- primary_to_mortar_int / _avg, secondary_to_mortar_int / _avg -/
+  inv : SideInv cov nP nS s
+  /-- mortar_to_primary_int (= primary_to_mortar_avgᵀ): totals of every mortar cell are preserved -/
+  m2pInt_col : ∀ i, i < s.pInt.r → s.pAvg.T.colSum i = 1
+  /-- mortar_to_primary_avg (= primary_to_mortar_intᵀ): constants to constants on the covered faces -/
+  m2pAvg_row : ∀ j, j < nP → cov j → s.pInt.T.rowSum j = 1
+  /-- mortar_to_secondary_int (= secondary_to_mortar_avgᵀ) -/
+  m2sInt_col : ∀ i, i < s.pInt.r → s.sAvg.T.colSum i = 1
+  /-- mortar_to_secondary_avg (= secondary_to_mortar_intᵀ) -/
+  m2sAvg_row : ∀ j, j < nS → s.sInt.T.rowSum j = 1
+
+/-- a side together with the (ghost) set of primary faces it covers -/
+abbrev CSide := Side × (Nat → Prop)
+
+/-- Interface states (`nP` primary faces, `nS` secondary cells, per-side blocks `L`, stored matrices
+    `pr`) reachable from a stack of sides satisfying the invariant — in particular from what the
+    constructor builds (`constructor_reach_two`, `constructor_reach_one`) — by `update_mortar`,
+    `update_secondary`, `update_primary` calls whose per-side matrices are valid (`ValidUpd`; the
+    matrices of `match_1d` / `match_grids_along_1d_mortar` are: `mortar_update_valid`,
+    `identity_update_valid`, `secondary_update_valid`, `face_update_valid`).  The stored matrices are
+    updated by the CODE's operations (`updateMortar` with block-diagonal products, …). -/
+inductive IReach : Nat → Nat → List CSide → Proj → Prop where
+  | start (nP nS : Nat) (L : List CSide) :
+      (∀ x ∈ L, SideInv x.2 nP nS x.1) → IReach nP nS L (stackSides nP nS (L.map (·.1)))
+  | mortar (nP nS : Nat) (pr : Proj) (M : List (CSide × Mat × Mat)) :
+      IReach nP nS (M.map (·.1)) pr →
+      (∀ x ∈ M, ValidUpd ⟨x.1.2, nP, nS⟩ x.1.1 ⟨x.1.2, nP, nS⟩ (.mortar x.2.1 x.2.2)) →
+      IReach nP nS (M.map fun x => (x.1.1.apply (.mortar x.2.1 x.2.2), x.1.2))
+        (updateMortar pr (M.map (·.2.1)) (M.map (·.2.2)))
+  | secondary (nP nS nS' : Nat) (pr : Proj) (M : List (CSide × Mat × Mat)) :
+      IReach nP nS (M.map (·.1)) pr →
+      (∀ x ∈ M, ValidUpd ⟨x.1.2, nP, nS⟩ x.1.1 ⟨x.1.2, nP, nS'⟩ (.secondary x.2.1 x.2.2)) →
+      IReach nP nS' (M.map fun x => (x.1.1.apply (.secondary x.2.1 x.2.2), x.1.2))
+        (updateSecondary pr nS' (M.map (·.2.1)) (M.map (·.2.2)))
+  | primary (nP nS nP' : Nat) (pr : Proj) (a i : Mat) (M : List (CSide × (Nat → Prop))) :
+      IReach nP nS (M.map (·.1)) pr → a.c = nP' → i.c = nP' →
+      (∀ x ∈ M, ValidUpd ⟨x.1.2, nP, nS⟩ x.1.1 ⟨x.2, nP', nS⟩ (.primary a i)) →
+      IReach nP' nS (M.map fun x => (x.1.1.apply (.primary a i), x.2)) (updatePrimary pr a i)
+
+/-! ### 2-D mortar grids: nested (conforming) triangle refinements, `match_2d`
+
+For a refinement in which every new triangle lies in one old triangle, the overlap of a new cell with
+its parent is the new cell's area and with every other old cell zero — what `match_2d` gets from the
+polygon intersections of `pp.intersections.triangulations`. -/
+
+abbrev Pt := Rat × Rat
+
+structure Tri where
+  a : Pt
+  b : Pt
+  c : Pt
+
+/-- twice the signed area -/
+def area2 (t : Tri) : Rat :=
+  (t.b.1 - t.a.1) * (t.c.2 - t.a.2) - (t.c.1 - t.a.1) * (t.b.2 - t.a.2)
+
+def lerp (p q : Pt) (s : Rat) : Pt := (p.1 + s * (q.1 - p.1), p.2 + s * (q.2 - p.2))
+
+def bary (t : Tri) (u v : Rat) : Pt :=
+  (t.a.1 + u * (t.b.1 - t.a.1) + v * (t.c.1 - t.a.1), t.a.2 + u * (t.b.2 - t.a.2) + v * (t.c.2 - t.a.2))
+
+/-- recipe of a nested refinement of one triangle `(a, b, c)` -/
+inductive Ref where
+  /-- keep the triangle -/
+  | leaf
+  /-- bisect: new node on the edge `b c` at parameter `s`, children `(a, b, m)` and `(a, m, c)` -/
+  | edge (s : Rat) (l r : Ref)
+  /-- relabel `(a, b, c)` as `(b, c, a)` (to reach the other edges) -/
+  | rot (r : Ref)
+  /-- new interior node `p = a + u (b - a) + v (c - a)`, children `(p, b, c)`, `(a, p, c)`, `(a, b, p)` -/
+  | centre (u v : Rat) (r1 r2 r3 : Ref)
+  /-- regular refinement by the three edge midpoints (four children) -/
+  | red (r1 r2 r3 r4 : Ref)
+
+def refine : Ref → Tri → List Tri
+  | .leaf, t => [t]
+  | .edge s l r, t =>
+    let m := lerp t.b t.c s
+    refine l ⟨t.a, t.b, m⟩ ++ refine r ⟨t.a, m, t.c⟩
+  | .rot r, t => refine r ⟨t.b, t.c, t.a⟩
+  | .centre u v r1 r2 r3, t =>
+    let p := bary t u v
+    refine r1 ⟨p, t.b, t.c⟩ ++ (refine r2 ⟨t.a, p, t.c⟩ ++ refine r3 ⟨t.a, t.b, p⟩)
+  | .red r1 r2 r3 r4, t =>
+    let mab := lerp t.a t.b (1 / 2)
+    let mbc := lerp t.b t.c (1 / 2)
+    let mca := lerp t.c t.a (1 / 2)
+    refine r1 ⟨t.a, mab, mca⟩ ++ (refine r2 ⟨mab, t.b, mbc⟩ ++
+      (refine r3 ⟨mca, mbc, t.c⟩ ++ refine r4 ⟨mab, mbc, mca⟩))
+
+/-- new nodes strictly inside the edge / the triangle -/
+def Ref.Valid : Ref → Prop
+  | .leaf => True
+  | .edge s l r => 0 < s ∧ s < 1 ∧ l.Valid ∧ r.Valid
+  | .rot r => r.Valid
+  | .centre u v r1 r2 r3 => 0 < u ∧ 0 < v ∧ u + v < 1 ∧ r1.Valid ∧ r2.Valid ∧ r3.Valid
+  | .red r1 r2 r3 r4 => r1.Valid ∧ r2.Valid ∧ r3.Valid ∧ r4.Valid
+
+/-- the cells of the refined grid with the index of their parent, parents numbered from `k` -/
+def kidsFrom (k : Nat) : List Tri → List Ref → List (Nat × Tri)
+  | p :: ps, r :: rs => (refine r p).map (fun c => (k, c)) ++ kidsFrom (k + 1) ps rs
+  | _, _ => []
+
+def triAt (l : List Tri) (j : Nat) : Tri := l.getD j ⟨(0, 0), (0, 0), (0, 0)⟩
+def kidAt (l : List (Nat × Tri)) (i : Nat) : Nat × Tri := l.getD i (0, ⟨(0, 0), (0, 0), (0, 0)⟩)
+
+/-- `match_2d(new_g, old_g, tol, scaling)` for a nested refinement: `new cells × old cells` -/
+def match2dNested (parents : List Tri) (recipes : List Ref) : Scaling → Mat
+  | .averaged => table (kidsFrom 0 parents recipes).length parents.length fun i j =>
+      let kc := kidAt (kidsFrom 0 parents recipes) i
+      if kc.1 = j then area2 kc.2 / area2 kc.2 else 0
+  | .integrated => table (kidsFrom 0 parents recipes).length parents.length fun i j =>
+      let kc := kidAt (kidsFrom 0 parents recipes) i
+      if kc.1 = j then area2 kc.2 / area2 (triAt parents j) else 0
 
 end PorepyVerif.C26
